@@ -235,4 +235,134 @@ theorem cleanInv_sub (cfg : Cfg) (n : Nat) (auto : Bool) (st : St) (h : Core st)
   refine ⟨by rw [hfold]; exact b3 hi.bad, by rw [hfold]; exact b1, ?_⟩
   rw [hfold, b2]; intro hq; simp at hq
 
+/-! ### all-or-nothing clause -/
+
+def Ev.isSubCallRet : Ev → Bool
+  | .call _ (.sub _) | .ret _ (.sub _) _ => true
+  | _ => false
+
+theorem aon_idle_step (m : AonMon) (hp : m.pend = none) (hi : m.inSub = false) (e : Ev) (he : e.isSubCallRet = false) :
+    aonStep m e = m := by
+  cases e with
+  | req r => simp [aonStep, hp, hi]
+  | cb t a b c => simp [aonStep, hp]
+  | spin t => simp [aonStep, hp]
+  | snap t a b c d => simp [aonStep, hp]
+  | call t c => cases c with
+    | sub a => simp [Ev.isSubCallRet] at he
+    | unsub => simp [aonStep, hp]
+  | ret t c res => cases c with
+    | sub a => simp [Ev.isSubCallRet] at he
+    | unsub => simp [aonStep, hp]
+
+theorem aon_idle_fold (evs : List Ev) (hev : ∀ e ∈ evs, e.isSubCallRet = false) (m : AonMon)
+    (hp : m.pend = none) (hi : m.inSub = false) : evs.foldr (fun e m => aonStep m e) m = m := by
+  induction evs with
+  | nil => rfl
+  | cons e r ih =>
+    simp only [List.foldr_cons]
+    rw [ih (fun x hx => hev x (List.mem_cons_of_mem _ hx))]
+    exact aon_idle_step m hp hi e (hev e List.mem_cons_self)
+
+theorem aon_collect (l : List Req) (m : AonMon) (hp : m.pend = none) (hi : m.inSub = true) :
+    (l.map Ev.req).foldr (fun e m => aonStep m e) m = { m with reqs := l ++ m.reqs } := by
+  induction l with
+  | nil => rfl
+  | cons r rest ih =>
+    simp only [List.map_cons, List.foldr_cons, ih]
+    simp [aonStep, hp, hi]
+
+structure AonInv (n : Nat) (st : St) : Prop where
+  bad : (aonOf n st.rtrace).bad = []
+  pend : (aonOf n st.rtrace).pend = none
+  idle : (aonOf n st.rtrace).inSub = false
+  nEq : (aonOf n st.rtrace).n = n
+
+theorem AonInv.init (n : Nat) (script : List Entry) (dflt : Entry) : AonInv n (init script dflt) :=
+  ⟨rfl, rfl, rfl, rfl⟩
+
+theorem taskEv_not_subCallRet (e : Ev) (h : e.isTaskEv = true) : e.isSubCallRet = false := by
+  cases e <;> simp_all [Ev.isTaskEv, Ev.isSubCallRet]
+
+theorem aonOf_cons (n : Nat) (e : Ev) (rt : List Ev) : aonOf n (e :: rt) = aonStep (aonOf n rt) e := rfl
+
+theorem aonInv_of_idle (n : Nat) (st st' : St) (hi : AonInv n st) (evs : List Ev) (htr : st'.rtrace = evs ++ st.rtrace)
+    (hev : ∀ e ∈ evs, e.isSubCallRet = false) : AonInv n st' := by
+  have : aonOf n st'.rtrace = aonOf n st.rtrace := by
+    rw [htr, aonOf_append, aon_idle_fold evs hev _ hi.pend hi.idle]
+  exact ⟨by rw [this]; exact hi.bad, by rw [this]; exact hi.pend, by rw [this]; exact hi.idle, by rw [this]; exact hi.nEq⟩
+
+theorem aonInv_wait (cfg : Cfg) (n d : Nat) (st : St) (hi : AonInv n st) : AonInv n (doWait cfg d st) := by
+  obtain ⟨more, hm, hshape⟩ := doWait_shape cfg d st
+  rcases hshape with h | ⟨t, a, b, c, d', h⟩
+  · exact aonInv_of_idle n st _ hi more h (fun e he => taskEv_not_subCallRet e (hm e he))
+  · refine aonInv_of_idle n st _ hi (.snap t a b c d' :: more) (by rw [h]) ?_
+    intro e he
+    rcases List.mem_cons.1 he with rfl | he
+    · rfl
+    · exact taskEv_not_subCallRet e (hm e he)
+
+theorem aonInv_unsub (cfg : Cfg) (hd : cfg.delEarly = false) (n : Nat) (st : St) (h : Core st) (ht : TaskOk st)
+    (hi : AonInv n st) : AonInv n (doUnsub cfg st) := by
+  by_cases hh : st.halted = true
+  · have : doUnsub cfg st = st := by simp [doUnsub, hh]
+    rw [this]; exact hi
+  have hh' : st.halted = false := by simpa using hh
+  obtain ⟨sevs, hsev, hS, hcase⟩ := doUnsub_shape cfg hd st h ht hh'
+  rcases hcase with ⟨_, heq⟩ | ⟨_, ureqs, t, av, _, htr⟩
+  · refine aonInv_of_idle n st _ hi (sevs ++ [.call st.now .unsub]) (by rw [heq, hS]; simp) ?_
+    intro e he
+    rcases List.mem_append.1 he with he | he
+    · exact taskEv_not_subCallRet e (hsev e he)
+    · simp at he; subst he; rfl
+  · refine aonInv_of_idle n st _ hi
+      (.snap t [] [] false av :: .ret t .unsub none :: (ureqs.reverse.map Ev.req) ++ sevs ++ [.call st.now .unsub])
+      (by rw [htr]; simp) ?_
+    intro e he
+    simp only [List.cons_append, List.mem_cons, List.mem_append, List.mem_singleton, List.append_assoc] at he
+    rcases he with rfl | rfl | he | he | he
+    · rfl
+    · rfl
+    · exact taskEv_not_subCallRet e (reqs_taskEvs _ e he)
+    · exact taskEv_not_subCallRet e (hsev e he)
+    · rcases he with rfl | he
+      · rfl
+      · simp at he
+
+theorem aonInv_sub (cfg : Cfg) (n : Nat) (auto : Bool) (st : St) (h : Core st) (hi : AonInv n st) :
+    AonInv n (doSub cfg n auto st) := by
+  by_cases hpre : (st.halted || !st.subs.isEmpty || st.task.alive) = true
+  · have : doSub cfg n auto st = st := by simp only [doSub, hpre, if_true]
+    rw [this]; exact hi
+  have hpre' : st.halted = false ∧ st.subs = [] ∧ st.task.alive = false := by
+    simp only [Bool.or_eq_true, not_or, Bool.not_eq_true, Bool.not_eq_true'] at hpre
+    refine ⟨hpre.1.1, ?_, hpre.2⟩
+    have := hpre.1.2
+    simpa using this
+  obtain ⟨reqs, res, t, subs, routed, task, av, htr, hok, hfail⟩ :=
+    all_or_nothing_shape cfg n auto st h hpre'.1 hpre'.2.1 hpre'.2.2
+  have hcall : aonOf n (Ev.call st.now (.sub auto) :: st.rtrace) = { aonOf n st.rtrace with inSub := true, reqs := [] } := by
+    rw [aonOf_cons]; simp [aonStep, hi.pend]
+  have hcoll := aon_collect reqs.reverse { aonOf n st.rtrace with inSub := true, reqs := [] } hi.pend rfl
+  have hfold : aonOf n (doSub cfg n auto st).rtrace
+      = aonStep (aonStep { aonOf n st.rtrace with inSub := true, reqs := reqs.reverse } (.ret t (.sub auto) res))
+          (.snap t subs routed task av) := by
+    rw [htr]
+    have : (Ev.snap t subs routed task av :: Ev.ret t (.sub auto) res :: (reqs.reverse.map Ev.req) ++ Ev.call st.now (.sub auto) :: st.rtrace)
+        = Ev.snap t subs routed task av :: Ev.ret t (.sub auto) res :: ((reqs.reverse.map Ev.req) ++ Ev.call st.now (.sub auto) :: st.rtrace) := by
+      simp
+    rw [this, aonOf_cons, aonOf_cons, aonOf_append, hcall, hcoll]
+    simp
+  have hret : aonStep { aonOf n st.rtrace with inSub := true, reqs := reqs.reverse } (.ret t (.sub auto) res)
+      = { aonOf n st.rtrace with inSub := false, reqs := reqs.reverse, pend := some res } := by
+    simp [aonStep, hi.pend]
+  rw [hret] at hfold
+  cases res with
+  | none =>
+    have := hok rfl
+    refine ⟨?_, ?_, ?_, ?_⟩ <;> rw [hfold] <;> simp [aonStep, flagged, hi.nEq, this, hi.bad]
+  | some e =>
+    have := hfail (by simp)
+    refine ⟨?_, ?_, ?_, ?_⟩ <;> rw [hfold] <;> simp [aonStep, flagged, hi.nEq, this, hi.bad]
+
 end Upnp.C12
